@@ -44,6 +44,7 @@ def main():
     # ---- 1. indexing ---------------------------------------------------------------------------
     if R.stage("index"):
         names = cm.all_1d_classes() if thorough else cm.QUICK_CLASSES
+        names = list(names) + (cm.VIEW_CLASSES if thorough else cm.VIEW_CLASSES[:4])   # strided component views
         R.declare(*c19_index.CLASSES)
         ok = cm.fork_map(c19_index.run_item, c19_index.items(names), R, "index.worker.fatal",
                          describe=lambda it: "%s n=%d" % it)
